@@ -15,7 +15,11 @@ LEVEL = "model_checking"
 RULE = ("every forest of <=3 Sections x all single invalidity knobs and all pairs of knobs (quick; triples on "
         "<=2 Sections thorough); knobs: shared ids (every ordered pair of objects incl. the Document), Section type "
         "n.s./None/'', name=id, duplicate sibling names, dependency x dependency_value x target values, every "
-        "cardinality kind x normal form, tuple length/dtype mismatch; each document is validated as Document and "
+        "cardinality kind x normal form, tuple length/dtype mismatch; look-alike layer: sibling Sections whose (name, type) "
+        "pairs differ but read alike (a separator of / : | , blank tab - _ . ; or nothing moved between name and type, "
+        "None next to 'None' / '', case, blanks, composed/decomposed letters, name of one = type of the other) with real "
+        "duplicates as controls, the same for sibling Property names, a dependency naming a look-alike of the sibling's "
+        "name, ids differing in the case of the hex digits; each document is validated as Document and "
         "from every Section and Property as root; non-trivial = at least one issue expected or reported")
 WATCHDOG_S = 30
 
@@ -45,6 +49,56 @@ def objects(doc):
     rec(doc)
     return out
 
+
+# Look-alike sibling pairs: two DIFFERENT (name, type) pairs (Sections) / names (Properties) that look the same once
+# they are joined into one text, rendered, folded or trimmed.  label -> ((name1, type1), (name2, type2)); the first pair
+# goes to the earlier sibling.  Text-valued (or cleared) names and types only, simplest first.
+SEPARATORS = ["/", ":", "|", ",", " ", "\t", "-", "_", ".", ";", ""]
+
+
+def _lookalike_sections():
+    out = []
+    for sep in SEPARATORS:
+        # the separator moved between name and type: 'rec/day' + 'e'  next to  'rec' + 'day/e' (sep '' : plain joining)
+        out.append(("shift:%r" % sep, (("rec" + sep + "day", "e"), ("rec", "day" + sep + "e"))))
+    out.append(("shift-back:'/'", (("rec", "day/e"), ("rec/day", "e"))))          # the longer name second
+    out.append(("shift-twice:'/'", (("a/b/c", "d"), ("a", "b/c/d"))))
+    out.append(("rendered:'[]'", (("rec [day", "e]"), ("rec", "day] [e"))))          # 'name [type]' renderings
+    out.append(("name-is-type-of-other", (("a", "b"), ("b", "a"))))                 # unordered comparison
+    out.append(("both-equal-own-type", (("a", "a"), ("b", "b"))))
+    # equal names (private field, the public API refuses them), types that read alike
+    out.append(("type:None|'None'", (("s", None), ("s", "None"))))
+    out.append(("type:'None'|None", (("s", "None"), ("s", None))))
+    out.append(("type:None|''", (("s", None), ("s", ""))))                          # EITHER (ref/validation.py)
+    out.append(("type:''|'None'", (("s", ""), ("s", "None"))))
+    out.append(("type:case", (("s", "t"), ("s", "T"))))
+    out.append(("type:leading-blank", (("s", "t"), ("s", " t"))))
+    out.append(("type:trailing-blank", (("s", "t "), ("s", "t"))))
+    out.append(("type:tab-vs-blank", (("s", "t\tu"), ("s", "t u"))))
+    out.append(("type:composed-vs-decomposed", (("s", "\u00e9"), ("s", "e\u0301"))))
+    out.append(("type:prefix", (("s", "t"), ("s", "t/u"))))
+    out.append(("type:'n.s.'|None", (("s", "n.s."), ("s", None))))
+    # equal types, names that read alike
+    out.append(("name:case", (("s", "t"), ("S", "t"))))
+    out.append(("name:leading-blank", (("s", "t"), (" s", "t"))))
+    out.append(("name:trailing-blank", (("s ", "t"), ("s", "t"))))
+    out.append(("name:composed-vs-decomposed", (("\u00e9", "t"), ("e\u0301", "t"))))
+    out.append(("name:text-'None'", (("None", "t"), ("none", "t"))))
+    # controls: real duplicates whose texts hold the separators (MUST be reported), as must plain ones
+    out.append(("same:with-separators", (("rec/day:1|x, y", "e/f g"), ("rec/day:1|x, y", "e/f g"))))
+    out.append(("same:type-None", (("s", None), ("s", None))))
+    out.append(("same:type-text-None", (("s", "None"), ("s", "None"))))
+    return out
+
+
+def _lookalike_properties():
+    return [("name:case", ("v", "V")), ("name:leading-blank", ("v", " v")), ("name:trailing-blank", ("v ", "v")),
+            ("name:composed-vs-decomposed", ("\u00e9", "e\u0301")), ("name:separator", ("v/w", "v")),
+            ("same:with-separators", ("v/w:1|x, y", "v/w:1|x, y"))]
+
+
+LOOKALIKE_S = dict(_lookalike_sections())
+LOOKALIKE_P = dict(_lookalike_properties())
 
 CARDS = [(None, 1), (None, 2), (None, 3), (1, None), (2, None), (3, None), (0, 1), (1, 1), (1, 2), (2, 2),
          (2, 3), (3, 3)]
@@ -78,6 +132,9 @@ def knobs_for(doc):
                         if dv in ("near-miss-text", "other-type") and tv in ("keep", "empty"):
                             continue
                         out.append(["dependency", t, dep, dv, tv])
+            # the dependency names a text that only looks like the sibling's name: no Property carries it
+            for variant in ("case", "trailing-blank", "leading-blank", "path"):
+                out.append(["dependency-lookalike", t, variant])
             out.append(["tuple-length", t])
             for variant in ("str-in-int", "datetime-in-date", "str-in-date", "str-in-boolean", "float-text-in-int"):
                 out.append(["value-not-of-dtype", t, variant])
@@ -94,7 +151,29 @@ def knobs_for(doc):
             out.append(["dup-name", t2, t1, "same-type"])
             if ":" not in t1:
                 out.append(["dup-name", t2, t1, "other-type"])
+    # look-alike layer: sibling pairs whose names / (name, type) pairs differ but read alike, and ids that differ in
+    # the case of the hex digits only (private field: the public API stores the canonical form)
+    for (t1, o1), (t2, o2) in itertools.combinations(objs, 2):
+        if t1 == "D" or (":" in t1) != (":" in t2) or o1.parent is not o2.parent:
+            continue
+        for label, _ in (_lookalike_properties() if ":" in t1 else _lookalike_sections()):
+            out.append(["lookalike", t2, t1, label])
+    for t, o in objs:
+        if t != "D":
+            for t2 in tags:
+                if t2 != t:
+                    out.append(["id-case", t, t2])
     return out
+
+
+def _rename(o, name):
+    """Public setter first; the private field where the public API refuses (a sibling already carries the name)."""
+    try:
+        o.name = name
+    except KeyError:
+        pass
+    if o.name != name:
+        o._name = name
 
 
 def apply_knob(doc, knob):
@@ -163,6 +242,30 @@ def apply_knob(doc, knob):
             o.dependency_value = {"int": 5.0, "boolean": 0, "date": 20200102}.get(tv, 5.0)
         else:
             o.dependency_value = None
+    elif k == "dependency-lookalike":
+        sib = [p for p in tree.children(o.parent)[1] if p is not o][0]
+        o.dependency = {"case": sib.name.upper(), "trailing-blank": sib.name + " ", "leading-blank": " " + sib.name,
+                        "path": "./" + sib.name}[knob[2]]
+        o.dependency_value = sib.values[0]
+    elif k == "lookalike":
+        other = objs.get(knob[2])
+        if other is None:
+            return False
+        if ":" in knob[1]:
+            n1, n2 = LOOKALIKE_P[knob[3]]
+            _rename(other, n1)
+            _rename(o, n2)
+        else:
+            (n1, ty1), (n2, ty2) = LOOKALIKE_S[knob[3]]
+            _rename(other, n1)
+            other.type = ty1
+            _rename(o, n2)
+            o.type = ty2
+    elif k == "id-case":
+        other = objs.get(knob[2])
+        if other is None:
+            return False
+        o._id = other.id.upper()        # the same UUID, another text
     elif k == "tuple-length":
         o.values = []
         o.dtype = "2-tuple"
@@ -190,6 +293,28 @@ def apply_knob(doc, knob):
     return True
 
 
+NEW_LAYER = ("lookalike", "id-case", "dependency-lookalike")
+
+
+def pair_wanted(a, b, tier):
+    """Pairs with a knob of the look-alike layer: combined with the knobs that touch the same rules (ids, names, types,
+    the dependency of a renamed Property) and a thin cut of the others; everything in the thorough tier."""
+    if tier == "thorough" or (a[0] not in NEW_LAYER and b[0] not in NEW_LAYER):
+        return True
+    for x, y in ((a, b), (b, a)):
+        if x[0] not in NEW_LAYER:
+            continue
+        if y[0] == "card" and (x[0] != "lookalike" or y[3] not in ([1, 2], [2, None])):
+            return False
+        if y[0] == "dependency" and (x[0] != "lookalike" or y[4] != "keep"):
+            return False
+        if x[0] == "id-case" and y[0] not in ("share-id", "id-case", "lookalike", "dup-name", "name-is-id"):
+            return False
+        if y[0] in ("value-not-of-dtype", "tuple-length"):
+            return False
+    return True
+
+
 def gen_cases(tier):
     env.install()
     cases = []
@@ -205,11 +330,12 @@ def gen_cases(tier):
             # different kinds (quick) / all pairs (thorough)
             if n <= 2 or tier == "thorough":
                 for a, b in itertools.combinations(knobs, 2):
-                    cases.append({"shape": shape, "n": n, "knobs": [a, b]})
+                    if pair_wanted(a, b, tier):
+                        cases.append({"shape": shape, "n": n, "knobs": [a, b]})
             else:
                 for a, b in itertools.combinations(knobs, 2):
                     if a[0] != b[0] and a[1] != b[1] and {a[0], b[0]} & {"share-id", "dup-name", "sec-type"} \
-                            and "card" not in (a[0], b[0]):
+                            and "card" not in (a[0], b[0]) and pair_wanted(a, b, tier):
                         cases.append({"shape": shape, "n": n, "knobs": [a, b]})
             if tier == "thorough" and n <= 1:
                 small = [k for k in knobs if k[0] != "card" or k[3] in ([1, 2], [2, None])]
@@ -224,14 +350,20 @@ def knob_class(k):
         return "dependency:%s:%s:%s" % (k[2], k[3], k[4])
     if k[0] == "card":
         return "card:%s:%s" % (k[2], tuple(k[3]))
+    def kd(t):
+        return "D" if t == "D" else ("P" if ":" in t else "S")
     if k[0] == "share-id":
-        def kd(t):
-            return "D" if t == "D" else ("P" if ":" in t else "S")
         return "share-id:%s-with-%s" % (kd(k[1]), kd(k[2]))
     if k[0] == "sec-type":
         return "sec-type:%r" % (k[2],)
     if k[0] == "dup-name":
         return "dup-name:%s:%s" % ("P" if ":" in k[1] else "S", k[3])
+    if k[0] == "lookalike":
+        return "lookalike:%s:%s" % ("P" if ":" in k[1] else "S", k[3])
+    if k[0] == "dependency-lookalike":
+        return "dependency-lookalike:%s" % k[2]
+    if k[0] == "id-case":
+        return "id-case:%s-like-%s" % (kd(k[1]), kd(k[2]))
     return k[0]
 
 
@@ -298,10 +430,18 @@ def check(tier):
         "clash groups (shared id / sibling name): between n-1 and n members must be flagged",
         "dependency: EITHER when the value equals only a later value, only after text conversion, is None, or the "
         "target has no values",
+        "names, Section types and dependencies are text or None, as documented ('String providing a grouping "
+        "description', 'A name of another Property'): a list or number stored in Section.type / Property.dependency "
+        "is outside 'all documents' (no knob for it)",
+        "duplicates are compared exactly: pairs differing in case, blanks, composed/decomposed letters, None next to "
+        "the text 'None' are different (no issue allowed); EITHER only for equally named siblings with types None "
+        "next to '' (both absent) and for ids that are the same UUID in another letter case",
     ])
     cases = gen_cases(tier)
     run.bounds = {"max_sections": 3, "knob_deviations": 2 if tier == "quick" else 3}
     run.layer("documents", cases=len(cases))
+    run.layer("look-alike names / types / ids", cases=sum(1 for c in cases if any(k[0] in NEW_LAYER for k in c["knobs"])),
+              section_pairs=len(LOOKALIKE_S), property_pairs=len(LOOKALIKE_P), separators=SEPARATORS)
     par.run_cases(run, "checks.c08", cases, nchunks=par.JOBS * 16)
     return run.finish(reproduce=lambda f: replay(f))
 
